@@ -61,21 +61,22 @@ theorem lowerBoundRev_spec (I : Item T M A) (L : Lawful I) (s : Seg T) (xs : Lis
     (s.lowerBoundRev I r f).1 = Spec.last I xs r f ∧ Inv I (s.lowerBoundRev I r f).2.2 xs :=
   ⟨(lowerBoundRev_refines I L s xs hI r f g hf hr hm).1, (lowerBoundRev_refines I L s xs hI r f g hf hr hm).2.1⟩
 
-/-- Every value shown to the predicate by `lower_bound(l, ·)` observes the aggregate of a range `[l, k]` of the
-    plain list, `l ≤ k < n` — in order, pending modifications applied, whatever the lazy state of the tree. -/
+/-- For **any** predicate whatsoever (no monotonicity, no factoring through `val`): every value shown to it by
+    `lower_bound(l, ·)` observes the aggregate of a range `[l, k]` of the plain list, `l ≤ k < n` — in order, pending
+    modifications applied, whatever the lazy state of the tree — and the tree still represents the same list afterwards. -/
 theorem probes_are_ranges (I : Item T M A) (L : Lawful I) (s : Seg T) (xs : List T) (hI : Inv I s xs)
-    (l : Nat) (f : T → Bool) (g : A → Bool) (hf : ∀ x, f x = g (I.val x)) (hl : l < xs.length)
-    (hm : MonoFwd I xs l f) :
+    (l : Nat) (f : T → Bool) (hl : l < xs.length) :
+    Inv I (s.lowerBound I l f).2.2 xs ∧
     ∀ kp ∈ (s.lowerBound I l f).2.1, l ≤ kp.1 ∧ kp.1 < xs.length ∧
       I.val kp.2 = I.val (Spec.aggFwd I xs l kp.1) :=
-  (lowerBound_refines I L s xs hI l f g hf hl hm).2.2
+  lowerBound_probes I L s xs hI l f hl
 
-/-- Every value shown to the predicate by `lower_bound_rev(r, ·)` observes the aggregate of a range `[k, r]`. -/
+/-- the same for `lower_bound_rev(r, ·)`: every probe observes the aggregate of a range `[k, r]`. -/
 theorem probes_are_ranges_rev (I : Item T M A) (L : Lawful I) (s : Seg T) (xs : List T) (hI : Inv I s xs)
-    (r : Nat) (f : T → Bool) (g : A → Bool) (hf : ∀ x, f x = g (I.val x)) (hr : r < xs.length)
-    (hm : MonoBwd I xs r f) :
+    (r : Nat) (f : T → Bool) (hr : r < xs.length) :
+    Inv I (s.lowerBoundRev I r f).2.2 xs ∧
     ∀ kp ∈ (s.lowerBoundRev I r f).2.1, kp.1 ≤ r ∧ I.val kp.2 = I.val (Spec.aggBwd I xs kp.1 r) :=
-  (lowerBoundRev_refines I L s xs hI r f g hf hr hm).2.2
+  lowerBoundRev_probes I L s xs hI r f hr
 
 /-! ## what the specification means -/
 
